@@ -43,7 +43,7 @@ def _bdecode(data: bytes, start_index: int = 0) -> typing.Tuple[typing.Union[int
             key, start_index = _bdecode(data, start_index)
             value, start_index = _bdecode(data, start_index)
             decoded_dict[key] = value
-        return decoded_dict, start_index
+        return decoded_dict, start_index + 1
     else:
         split_pos = data[start_index:].find(b':') + start_index
         try:
@@ -52,6 +52,8 @@ def _bdecode(data: bytes, start_index: int = 0) -> typing.Tuple[typing.Union[int
             raise DecodeError(err)
         start_index = split_pos + 1
         end_pos = start_index + length
+        if length < 0 or end_pos > len(data):
+            raise DecodeError(f"invalid string length: {length}")
         return data[start_index:end_pos], end_pos
 
 
@@ -71,5 +73,5 @@ def bdecode(data: bytes, allow_non_dict_return: typing.Optional[bool] = False) -
         if not allow_non_dict_return and not isinstance(result, dict):
             raise ValueError(f'expected dict, got {type(result)}')
         return result
-    except (ValueError, TypeError) as err:
+    except (ValueError, TypeError, IndexError, RecursionError) as err:
         raise DecodeError(err)
